@@ -877,7 +877,8 @@ func mk3(r *Rng, op string, depth int, scale float64, o genOpts) *node {
 		theta := 0.0
 		if op == "revolvetheta" {
 			theta = pickOne(r, []float64{r.R(0.05, 2*math.Pi-0.05), math.Pi / 2, math.Pi, 1.5 * math.Pi, math.Pi/2 - 1e-3, math.Pi/2 + 1e-3, math.Pi + 1e-3, math.Pi - 1e-3, 1.5*math.Pi + 1e-3, 0.3,
-				2*math.Pi + r.R(0.05, 6.2), 4*math.Pi + r.R(0.05, 6.2), 2*math.Pi + 1.0472}) // angles beyond a full turn are normalised by the constructor
+				2*math.Pi + r.R(0.05, 6.2), 4*math.Pi + r.R(0.05, 6.2), 2*math.Pi + 1.0472, // angles beyond a full turn are normalised by the constructor
+				2 * math.Pi, sdf.DtoR(360), 4 * math.Pi, sdf.DtoR(720), sdf.DtoR(405), sdf.DtoR(450), sdf.DtoR(540)}) // exactly whole and quarter turns
 		}
 		s, err := sdf.RevolveTheta3D(k.s2, theta)
 		if err != nil || s == nil {
